@@ -10,8 +10,9 @@
 
     Times are [Z] nanoseconds since the Unix epoch, UNBOUNDED: Go's [time.Time]
     holds instants far outside the int64-nanosecond range (seconds since year 1 in
-    an int64), and [CreateShardGroup] does produce such instants (a start time
-    before MinInt64 ns).  Only [Time.UnixNano] (used by [MarshalTime]) wraps.
+    an int64): the truncated window start of a timestamp near MinNanoTime lies
+    before MinInt64 ns ([CreateShardGroup] now clamps it to MinNanoTime, commit
+    f8af500a39).  Only [Time.UnixNano] (used by [MarshalTime]) wraps.
     Not modelled: [TruncatedAt] (no group is ever truncated here). *)
 From Verif Require Import Base.Prelude.
 Local Open Scope Z_scope.
@@ -54,11 +55,17 @@ Definition clip_step (t : Z) (se : Z * Z) (g : group) : Z * Z :=
   let e' := if (t <? g_start g) && (g_start g <? e) then g_start g else e in
   (s', e').
 
-Definition new_bounds (gs : list group) (d t : Z) : Z * Z :=
+(** start/end before clipping: truncated window, start clamped to MinNanoTime
+    (repair f8af500a39), end = truncated start + d clamped to MaxNanoTime+1 *)
+Definition init_bounds (d t : Z) : Z * Z :=
   let s0 := truncate t d in
   let e0 := s0 + d in
+  let s1 := if s0 <? MinNano then MinNano else s0 in
   let e1 := if MaxNano <? e0 then MaxNano + 1 else e0 in
-  fold_left (clip_step t) gs (s0, e1).
+  (s1, e1).
+
+Definition new_bounds (gs : list group) (d t : Z) : Z * Z :=
+  fold_left (clip_step t) gs (init_bounds d t).
 
 Record state := { st_gs : list group; st_next : N; st_d : Z }.
 
